@@ -177,6 +177,16 @@ def contents(P, F, fn, origin, site=None, _depth=0):
                     else:
                         out.append(Contribution("single", expr=e, conds=[c1 for ee, c1 in q.dominating_conditions(P, owner, mb) if c1[0] == "bool"] and
                                                 [c1[1] for ee, c1 in q.dominating_conditions(P, owner, mb) if c1[0] == "bool"], body=owner, site=s2, how="push"))
+                elif name == "retain":
+                    # `v.retain(p)`: a filter in place on everything put in so far
+                    cl = peel(m[2][0]) if m[2] else ("unknown",)
+                    g = F.fn(cl[1]) if cl[0] == "closure" else None
+                    if g is None or any(c.kind not in ("all-of", "expr") for c in out):
+                        out.append(Contribution("opaque", site=s2, how="retain(?)"))
+                    else:
+                        for c in out:
+                            c.conds.append(q.norm_cond(P.ret(g), True))
+                            c.how += " retain"
                 elif name in BULK:
                     src = m[2][0] if m[2] else ("unknown", "")
                     lp = q.enclosing_loops(P, owner, mb)
